@@ -358,4 +358,171 @@ theorem LOK_layerStep {R : Nat → Nat → List Nat → Prop} (c : Cfg V) (id : 
   · intro x hx; exact (selectHeur_mem c ns _ _ _ x hx).1
   · exact selectHeur_length c ns _ _ _
 
+
+/-! ### (d): list lengths.  `RD bd lc needs`: off layer `lc` every list obeys its bound; on layer
+`lc` a list may be too long only if its owner is still marked for pruning -/
+
+def RD (bd : Nat → Nat) (lc : Nat) (needs : List Nat) : Nat → Nat → List Nat → Prop :=
+  fun k i l => (i ≠ lc → l.length ≤ bd i) ∧ (i = lc → bd lc < l.length → k ∈ needs)
+
+/-- `LOK_setLayer` needing `R` only for the lists that are not replaced -/
+theorem LOK_setLayer' {R : Nat → Nat → List Nat → Prop} {ns : NodeMap V} (k lc : Nat)
+    (h : ∀ k' n, find ns k' = some n → ∀ i l, n.nbrs[i]? = some l → (k' ≠ k ∨ i ≠ lc) → R k' i l)
+    (l : List Nat) (hl : R k lc l) : LOK R (setLayer ns k lc l) := by
+  intro k' n' hf i l' hget
+  rw [setLayer, find_modify] at hf
+  by_cases hk : k = k'
+  · subst hk
+    simp only [if_true] at hf
+    cases hfn : find ns k with
+    | none => rw [hfn] at hf; simp at hf
+    | some n =>
+      rw [hfn] at hf
+      simp only [Option.map_some, Option.some.injEq] at hf
+      subst hf
+      simp only [List.getElem?_set] at hget
+      by_cases hi : lc = i
+      · subst hi
+        simp only [if_true] at hget
+        split at hget
+        · simp only [Option.some.injEq] at hget; subst hget; exact hl
+        · simp at hget
+      · simp only [hi, if_false] at hget
+        exact h k n hfn i l' hget (Or.inr (Ne.symm hi))
+  · simp only [hk, if_false] at hf
+    exact h k' n' hf i l' hget (Or.inl (Ne.symm hk))
+
+theorem RD_linkStep (bd : Nat → Nat) (id lc : Nat) (acc : NodeMap V × List Nat) (nb : Nat)
+    (h : LOK (RD bd lc acc.2) acc.1) :
+    LOK (RD bd lc (linkStep id lc (bd lc) acc nb).2) (linkStep id lc (bd lc) acc nb).1 := by
+  unfold linkStep
+  cases hf : find acc.1 nb with
+  | none => exact h
+  | some n =>
+    simp only
+    by_cases hlc : lc < n.nbrs.length
+    · simp only [hlc, if_true]
+      apply LOK_setLayer
+      · intro k n' hfk i l hg
+        obtain ⟨h1, h2⟩ := h k n' hfk i l hg
+        refine ⟨h1, fun hi hov => ?_⟩
+        have := h2 hi hov
+        split
+        · exact List.mem_append_left _ this
+        · exact this
+      · refine ⟨fun hne => absurd rfl hne, fun _ hov => ?_⟩
+        rw [if_pos hov]; simp
+    · simp only [hlc, if_false]; exact h
+
+theorem RD_linkFold (bd : Nat → Nat) (id lc : Nat) (sel : List Nat) (acc : NodeMap V × List Nat)
+    (h : LOK (RD bd lc acc.2) acc.1) :
+    LOK (RD bd lc (sel.foldl (linkStep id lc (bd lc)) acc).2)
+      (sel.foldl (linkStep id lc (bd lc)) acc).1 := by
+  induction sel generalizing acc with
+  | nil => exact h
+  | cons x xs ih => exact ih _ (RD_linkStep bd id lc acc x h)
+
+theorem RD_pruneOne (c : Cfg V) (bd : Nat → Nat) (lc : Nat) (ns : NodeMap V) (nb : Nat)
+    (rest : List Nat) (h : LOK (RD bd lc (nb :: rest)) ns) :
+    LOK (RD bd lc rest) (pruneOne c lc (bd lc) ns nb) := by
+  have key : ∀ k n, find ns k = some n → ∀ i l, n.nbrs[i]? = some l → (k ≠ nb ∨ i ≠ lc) →
+      RD bd lc rest k i l := by
+    intro k n hf i l hg hne
+    obtain ⟨h1, h2⟩ := h k n hf i l hg
+    refine ⟨h1, fun hi hov => ?_⟩
+    have hm := h2 hi hov
+    rw [List.mem_cons] at hm
+    cases hm with
+    | inl hm =>
+      cases hne with
+      | inl h3 => exact absurd hm h3
+      | inr h3 => exact absurd hi h3
+    | inr hm => exact hm
+  unfold pruneOne
+  cases hfn : find ns nb with
+  | none =>
+    intro k n hf i l hg
+    apply key k n hf i l hg
+    left; intro hk; subst hk; rw [hfn] at hf; cases hf
+  | some n0 =>
+    simp only
+    by_cases hlc : lc < n0.nbrs.length
+    · simp only [hlc, if_true]
+      by_cases hlen : (n0.nbrs.getD lc []).length ≤ bd lc
+      · simp only [hlen, if_true]
+        intro k n hf i l hg
+        by_cases hk : k = nb
+        · by_cases hi : i = lc
+          · subst hk; subst hi
+            rw [hfn] at hf
+            simp only [Option.some.injEq] at hf
+            subst hf
+            simp only [List.getD, hg, Option.getD_some] at hlen
+            exact ⟨fun hne => absurd rfl hne, fun _ hov => absurd hlen (by omega)⟩
+          · exact key k n hf i l hg (Or.inr hi)
+        · exact key k n hf i l hg (Or.inl hk)
+      · simp only [hlen, if_false]
+        apply LOK_setLayer' nb lc key
+        refine ⟨fun hne => absurd rfl hne, fun _ hov => ?_⟩
+        rw [List.length_take] at hov
+        omega
+    · simp only [hlc, if_false]
+      intro k n hf i l hg
+      by_cases hk : k = nb
+      · by_cases hi : i = lc
+        · subst hk; subst hi
+          rw [hfn] at hf
+          simp only [Option.some.injEq] at hf
+          subst hf
+          have hlt : i < n0.nbrs.length := by
+            apply Classical.byContradiction
+            intro hnot
+            rw [List.getElem?_eq_none (Nat.le_of_not_lt hnot)] at hg
+            cases hg
+          exact absurd hlt hlc
+        · exact key k n hf i l hg (Or.inr hi)
+      · exact key k n hf i l hg (Or.inl hk)
+
+theorem RD_pruneFold (c : Cfg V) (bd : Nat → Nat) (lc : Nat) (needs : List Nat) (ns : NodeMap V)
+    (h : LOK (RD bd lc needs) ns) :
+    LOK (RD bd lc []) (needs.foldl (pruneOne c lc (bd lc)) ns) := by
+  induction needs generalizing ns with
+  | nil => exact h
+  | cons x xs ih => exact ih _ (RD_pruneOne c bd lc ns x xs h)
+
+/-- the length bounds of all layers survive one step of the layer loop -/
+theorem bound_layerStep (c : Cfg V) (id : Nat) (v : V) (lc : Nat) (ns : NodeMap V) (cur : Nat)
+    (h : LOK (fun _ i l => l.length ≤ (if i = 0 then c.mMax else c.m)) ns) :
+    LOK (fun _ i l => l.length ≤ (if i = 0 then c.mMax else c.m)) (layerStep c id v lc ns cur).1 := by
+  simp only [layerStep]
+  have h1 : LOK (fun _ i l => l.length ≤ (if i = 0 then c.mMax else c.m))
+      (setLayer ns id lc (selectHeur c ns (dq c ns v)
+        (searchLayer (adjAt ns lc) (dq c ns v) c.efc c.fuel cur) (if lc = 0 then c.mMax else c.m))) :=
+    LOK_setLayer h id lc _ (selectHeur_length c ns _ _ _)
+  have h2 : LOK (RD (fun i => if i = 0 then c.mMax else c.m) lc []) (setLayer ns id lc (selectHeur c ns (dq c ns v)
+        (searchLayer (adjAt ns lc) (dq c ns v) c.efc c.fuel cur) (if lc = 0 then c.mMax else c.m))) := by
+    intro k n hf i l hg
+    have := h1 k n hf i l hg
+    exact ⟨fun _ => this, fun hi hov => by subst hi; simp only at this hov; omega⟩
+  have h3 := RD_linkFold (fun i => if i = 0 then c.mMax else c.m) id lc
+    (selectHeur c ns (dq c ns v) (searchLayer (adjAt ns lc) (dq c ns v) c.efc c.fuel cur)
+      (if lc = 0 then c.mMax else c.m)) (_, []) h2
+  have h4 := RD_pruneFold c (fun i => if i = 0 then c.mMax else c.m) lc _ _ h3
+  intro k n hf i l hg
+  obtain ⟨g1, g2⟩ := h4 k n hf i l hg
+  by_cases hi : i = lc
+  · subst hi
+    apply Classical.byContradiction
+    intro hnot
+    have := g2 rfl (by simp only; omega)
+    simp at this
+  · exact g1 hi
+
+theorem bound_layers (c : Cfg V) (id : Nat) (v : V) (n : Nat) (ns : NodeMap V) (cur : Nat)
+    (h : LOK (fun _ i l => l.length ≤ (if i = 0 then c.mMax else c.m)) ns) :
+    LOK (fun _ i l => l.length ≤ (if i = 0 then c.mMax else c.m)) (layers c id v n ns cur) := by
+  induction n generalizing ns cur with
+  | zero => exact h
+  | succ lc ih => simp only [layers]; exact ih _ _ (bound_layerStep c id v lc ns cur h)
+
 end Grafeo.HnswBuild
